@@ -181,3 +181,292 @@ func acceptedWithTaggedLabel(kind string, data []byte) bool {
 	}
 	return false
 }
+
+// ---------------------------------------------------------------- C05: structure of everything a decoder ACCEPTED
+//
+// structureOfAccepted re-reads an input the library accepted with the walker above and reports the
+// first clause of C05 it does not meet ("" if none): one definite-length item of the decoder's own
+// shape with nothing after it, no tag in the envelope, payload bstr or nil, non-empty bstr
+// signature(s), protected bucket a bstr that is empty or wraps exactly one map, unprotected bucket
+// a map, labels integers within int64 or text, no two equal keys in a bucket.  It knows nothing of
+// the Lean model and covers the inputs the model is silent about (tags, big integers).
+
+func rdHead(b []byte, off int) (major byte, val uint64, next int, ok bool) {
+	if off >= len(b) {
+		return 0, 0, 0, false
+	}
+	major, ai := b[off]>>5, b[off]&0x1f
+	p := off + 1
+	switch {
+	case ai < 24:
+		return major, uint64(ai), p, true
+	case ai <= 27:
+		w := 1 << (ai - 24)
+		if p+w > len(b) {
+			return 0, 0, 0, false
+		}
+		var n uint64
+		for i := 0; i < w; i++ {
+			n = n<<8 | uint64(b[p+i])
+		}
+		return major, n, p + w, true
+	}
+	return 0, 0, 0, false
+}
+
+func hasTagInside(b []byte, off int) bool {
+	major, n, p, ok := rdHead(b, off)
+	if !ok {
+		return false
+	}
+	switch major {
+	case 6:
+		return true
+	case 4, 5:
+		cnt := n
+		if major == 5 {
+			cnt *= 2
+		}
+		for i := uint64(0); i < cnt; i++ {
+			if hasTagInside(b, p) {
+				return true
+			}
+			if p = itemEnd(b, p); p < 0 {
+				return false
+			}
+		}
+	}
+	return false
+}
+
+// bucketProblem checks the keys of the map item at off (a header bucket)
+func bucketProblem(b []byte, off int, where string) string {
+	major, n, p, ok := rdHead(b, off)
+	if !ok || major != 5 {
+		return where + " is not a map"
+	}
+	seen := map[string]bool{}
+	for i := uint64(0); i < n; i++ {
+		km, kv, kn, ok := rdHead(b, p)
+		if !ok {
+			return where + ": truncated"
+		}
+		var id string
+		switch km {
+		case 0:
+			if kv > 1<<63-1 {
+				return where + ": integer label beyond int64"
+			}
+			id = "i+" + string(rune(0)) + uitoa(kv)
+		case 1:
+			if kv > 1<<63-1 {
+				return where + ": integer label beyond int64"
+			}
+			id = "i-" + uitoa(kv)
+		case 3:
+			end := itemEnd(b, p)
+			if end < 0 {
+				return where + ": truncated"
+			}
+			id = "t" + string(b[kn:end])
+		default:
+			return where + ": label is neither an integer nor a text item"
+		}
+		if seen[id] {
+			return where + ": duplicate label"
+		}
+		seen[id] = true
+		v := itemEnd(b, p)
+		if v < 0 {
+			return where + ": truncated"
+		}
+		// countersignature values carry their own layers
+		if km == 0 && (kv == 7 || kv == 11) {
+			if s := csigValueProblem(b, v, where+" > countersignature"); s != "" {
+				return s
+			}
+		}
+		if p = itemEnd(b, v); p < 0 {
+			return where + ": truncated"
+		}
+	}
+	return ""
+}
+
+func uitoa(v uint64) string {
+	if v == 0 {
+		return "0"
+	}
+	var d []byte
+	for v > 0 {
+		d = append([]byte{byte('0' + v%10)}, d...)
+		v /= 10
+	}
+	return string(d)
+}
+
+func protectedProblem(b []byte, off int, where string) string {
+	major, n, p, ok := rdHead(b, off)
+	if !ok || major != 2 {
+		return where + " is not a byte string"
+	}
+	if uint64(len(b)-p) < n {
+		return where + ": truncated"
+	}
+	content := b[p : p+int(n)]
+	if len(content) == 0 {
+		return ""
+	}
+	if itemEnd(content, 0) != len(content) {
+		return where + " does not wrap exactly one item"
+	}
+	return bucketProblem(content, 0, where)
+}
+
+// sigLayerProblem: [protected, unprotected, signature] at off
+func sigLayerProblem(b []byte, off int, where string) string {
+	major, n, p, ok := rdHead(b, off)
+	if !ok || major != 4 || n != 3 {
+		return where + " is not a 3-array"
+	}
+	if s := protectedProblem(b, p, where+" protected"); s != "" {
+		return s
+	}
+	u := itemEnd(b, p)
+	if u < 0 {
+		return where + ": truncated"
+	}
+	if hasTagInside(b, u) {
+		return where + ": tag in the unprotected bucket"
+	}
+	if s := bucketProblem(b, u, where+" unprotected"); s != "" {
+		return s
+	}
+	sg := itemEnd(b, u)
+	sm, sn, _, ok := rdHead(b, sg)
+	if sg < 0 || !ok || sm != 2 || sn == 0 {
+		return where + ": signature is not a non-empty byte string"
+	}
+	return ""
+}
+
+func csigValueProblem(b []byte, off int, where string) string {
+	// a stand-alone bucket decoder does not forbid tags around VALUES (inside a message the envelope
+	// check has already refused them): look through them
+	for off < len(b) && b[off]>>5 == 6 {
+		_, _, nx, ok := rdHead(b, off)
+		if !ok {
+			break
+		}
+		off = nx
+	}
+	major, n, p, ok := rdHead(b, off)
+	if !ok || major != 4 {
+		return where + " is not an array"
+	}
+	if n == 3 {
+		if m, _, _, ok := rdHead(b, p); ok && m == 2 {
+			return sigLayerProblem(b, off, where)
+		}
+	}
+	if n == 0 {
+		return where + ": empty list"
+	}
+	for i := uint64(0); i < n; i++ {
+		if s := sigLayerProblem(b, p, where); s != "" {
+			return s
+		}
+		if p = itemEnd(b, p); p < 0 {
+			return where + ": truncated"
+		}
+	}
+	return ""
+}
+
+func structureOfAccepted(kind string, data []byte) string {
+	if itemEnd(data, 0) != len(data) {
+		return "not exactly one definite-length item"
+	}
+	off := 0
+	switch kind {
+	case "ph":
+		return protectedProblem(data, 0, "protected")
+	case "uh":
+		return bucketProblem(data, 0, "unprotected")
+	case "sig", "csig":
+		if hasTagInside(data, 0) && func() bool { // tags are allowed inside the protected content only
+			_, _, p, _ := rdHead(data, 0)
+			u := itemEnd(data, p)
+			return u > 0 && hasTagInside(data, u)
+		}() {
+			return "tag in the envelope"
+		}
+		return sigLayerProblem(data, 0, kind)
+	case "s1", "sm":
+		m, v, p, ok := rdHead(data, 0)
+		want := uint64(18)
+		if kind == "sm" {
+			want = 98
+		}
+		if !ok || m != 6 || v != want {
+			return "wrong or missing tag"
+		}
+		off = p
+	case "s1u":
+	default:
+		return ""
+	}
+	m, n, p, ok := rdHead(data, off)
+	if !ok || m != 4 || n != 4 {
+		return "not a 4-array"
+	}
+	if s := protectedProblem(data, p, "protected"); s != "" {
+		return s
+	}
+	u := itemEnd(data, p)
+	if u < 0 {
+		return "truncated"
+	}
+	if hasTagInside(data, u) {
+		return "tag in the unprotected bucket"
+	}
+	if s := bucketProblem(data, u, "unprotected"); s != "" {
+		return s
+	}
+	pl := itemEnd(data, u)
+	pm, _, _, ok := rdHead(data, pl)
+	if pl < 0 || !ok || !(pm == 2 || data[pl] == 0xf6) {
+		return "payload is neither a byte string nor nil"
+	}
+	last := itemEnd(data, pl)
+	if last < 0 {
+		return "truncated"
+	}
+	if kind == "sm" {
+		am, an, ap, ok := rdHead(data, last)
+		if !ok || am != 4 || an == 0 {
+			return "signatures is not a non-empty array"
+		}
+		for i := uint64(0); i < an; i++ {
+			if hasTagInside(data, ap) && func() bool {
+				_, _, q, _ := rdHead(data, ap)
+				uu := itemEnd(data, q)
+				return uu > 0 && hasTagInside(data, uu)
+			}() {
+				return "tag in a signer's envelope"
+			}
+			if s := sigLayerProblem(data, ap, "signer"); s != "" {
+				return s
+			}
+			if ap = itemEnd(data, ap); ap < 0 {
+				return "truncated"
+			}
+		}
+		return ""
+	}
+	sm, sn, _, ok := rdHead(data, last)
+	if !ok || sm != 2 || sn == 0 {
+		return "signature is not a non-empty byte string"
+	}
+	return ""
+}
